@@ -11,6 +11,7 @@ import ast
 import os
 
 from .. import translate
+from . import normalize
 
 GEN = "fairlearn/metrics/_generated_metrics.py"
 MDM = "fairlearn/metrics/_make_derived_metric.py"
@@ -51,7 +52,7 @@ def find_assign(tree, name):
 
 
 def lift_generated(repo):
-    tree = ast.parse(open(os.path.join(repo, GEN)).read())
+    tree = normalize.parse(open(os.path.join(repo, GEN)).read())
     spec = find_assign(tree, "METRICS_SPEC")
     if not isinstance(spec, ast.List):
         raise U(GEN, "METRICS_SPEC is not a list literal")
@@ -60,27 +61,40 @@ def lift_generated(repo):
         if not (isinstance(t, ast.Tuple) and len(t.elts) == 2):
             raise U(GEN, "METRICS_SPEC entry is not a pair")
         out.append((metric_name(t.elts[0], GEN), const_str_list(t.elts[1], GEN)))
-    # the generating loop
-    loop = next((n for n in tree.body if isinstance(n, ast.For)), None)
-    if loop is None:
-        raise U(GEN, "generating loop not found")
-    src = ast.unparse(loop)
-    if "'{0}_{1}'.format(base_metric.__name__, variant)" not in src:
-        raise U(GEN, "name pattern is not '{0}_{1}'.format(base_metric.__name__, variant)")
-    call = next((n for n in ast.walk(loop) if isinstance(n, ast.Call) and isinstance(n.func, ast.Name)
+    # the generating loop:  for <base>, <variants> in METRICS_SPEC: for <variant> in <variants>: ...
+    loops = [n for n in tree.body if isinstance(n, ast.For)]
+    if len(loops) != 1:
+        raise U(GEN, "generating loop not found (or not the only module-level loop)")
+    loop = loops[0]
+    inner = [n for n in loop.body if isinstance(n, ast.For)]
+    if not (ast.unparse(loop.iter) == "METRICS_SPEC" and isinstance(loop.target, ast.Tuple) and len(loop.target.elts) == 2
+            and all(isinstance(e, ast.Name) for e in loop.target.elts) and len(inner) == 1 and isinstance(inner[0].target, ast.Name)
+            and ast.unparse(inner[0].iter) == loop.target.elts[1].id and not loop.orelse and not inner[0].orelse):
+        raise U(GEN, "generating loop is not `for <base>, <variants> in METRICS_SPEC: for <variant> in <variants>:`")
+    base, variant = loop.target.elts[0].id, inner[0].target.id
+    if len({base, variant, loop.target.elts[1].id}) != 3:
+        raise U(GEN, "generating loop variables are not distinct")
+    src = ast.unparse(inner[0])
+    patterns = (f"'{{0}}_{{1}}'.format({base}.__name__, {variant})", f"'{{}}_{{}}'.format({base}.__name__, {variant})",
+                f"f'{{{base}.__name__}}_{{{variant}}}'", f"{base}.__name__ + '_' + {variant}")
+    if sum(src.count(p_) for p_ in patterns) != 1:
+        raise U(GEN, "name pattern is not '{0}_{1}'.format(<base>.__name__, <variant>)")
+    call = next((n for n in ast.walk(inner[0]) if isinstance(n, ast.Call) and isinstance(n.func, ast.Name)
                  and n.func.id == "make_derived_metric"), None)
     if call is None:
         raise U(GEN, "make_derived_metric call not found")
     kw = {k.arg: k.value for k in call.keywords}
-    if not (isinstance(kw.get("metric"), ast.Name) and kw["metric"].id == "base_metric"
-            and isinstance(kw.get("transform"), ast.Name) and kw["transform"].id == "variant"):
-        raise U(GEN, "make_derived_metric is not called with metric=base_metric, transform=variant")
+    if call.args or set(kw) != {"metric", "transform", "sample_param_names"} or len(call.keywords) != 3:
+        raise U(GEN, "make_derived_metric is not called with exactly metric=, transform=, sample_param_names=")
+    if not (isinstance(kw.get("metric"), ast.Name) and kw["metric"].id == base
+            and isinstance(kw.get("transform"), ast.Name) and kw["transform"].id == variant):
+        raise U(GEN, "make_derived_metric is not called with metric=<base>, transform=<variant>")
     spn = const_str_list(kw.get("sample_param_names"), GEN)
     return out, spn
 
 
 def lift_dispatch(repo):
-    tree = ast.parse(open(os.path.join(repo, MDM)).read())
+    tree = normalize.parse(open(os.path.join(repo, MDM)).read())
     topts = const_str_list(find_assign(tree, "transform_options"), MDM)
     tparams = const_str_list(find_assign(tree, "parameters_for_transforms"), MDM)
     cls = next((n for n in tree.body if isinstance(n, ast.ClassDef) and n.name == "_DerivedMetric"), None)
@@ -94,8 +108,24 @@ def lift_dispatch(repo):
     kws = {k.arg: ast.unparse(k.value) for k in mfc.keywords}
     want = {"metrics": "dispatch_fn", "y_true": "y_true", "y_pred": "y_pred", "sensitive_features": "sensitive_features",
             "sample_params": "sample_params"}
-    if kws != want:
+
+    def bound_once(name):
+        return sum(1 for n in ast.walk(call) if isinstance(n, ast.Name) and n.id == name and not isinstance(n.ctx, ast.Load)) == 1
+    # the locals may have any name: `metrics` is the (once bound) functools.partial of the metric, `sample_params` a dict
+    # local (lifters/derived.py determines which one, by use), the three data arguments are the parameters themselves
+    partials = [s.targets[0].id for s in call.body if isinstance(s, ast.Assign) and len(s.targets) == 1
+                and isinstance(s.targets[0], ast.Name) and isinstance(s.value, ast.Call)
+                and ast.unparse(s.value.func) in ("functools.partial", "partial") and bound_once(s.targets[0].id)]
+    dicts = [s.targets[0].id for s in call.body if isinstance(s, ast.Assign) and len(s.targets) == 1
+             and isinstance(s.targets[0], ast.Name) and ast.unparse(s.value) in ("dict()", "{}") and bound_once(s.targets[0].id)]
+    if mfc.args or None in kws or set(kws) != set(want) or any(kws[k] != want[k] for k in ("y_true", "y_pred", "sensitive_features")) \
+            or kws["metrics"] not in partials or kws["sample_params"] not in dicts:
         raise U(MDM, f"MetricFrame called with {kws}")
+    frames = [s.targets[0].id for s in call.body if isinstance(s, ast.Assign) and len(s.targets) == 1
+              and isinstance(s.targets[0], ast.Name) and s.value is mfc and bound_once(s.targets[0].id)]
+    if len(frames) != 1:
+        raise U(MDM, "the MetricFrame is not bound (once) to a local")
+    frame = frames[0]
     disp = []
     node = next((s for s in call.body if isinstance(s, ast.If) and "self._transform ==" in ast.unparse(s.test)), None)
     while isinstance(node, ast.If):
@@ -106,13 +136,14 @@ def lift_dispatch(repo):
         if not (len(node.body) == 1 and isinstance(node.body[0], ast.Assign) and isinstance(node.body[0].value, ast.Call)):
             raise U(MDM, "dispatch branch shape")
         c = node.body[0].value
-        if not (isinstance(c.func, ast.Attribute) and ast.unparse(c.func.value) == "all_metrics"):
+        if not (isinstance(c.func, ast.Attribute) and ast.unparse(c.func.value) == frame):
             raise U(MDM, "dispatch does not call all_metrics.<method>")
         if c.args:
             raise U(MDM, "dispatch passes positional arguments")
         if len(c.keywords) == 0:
             withp = False
-        elif len(c.keywords) == 1 and c.keywords[0].arg is None and ast.unparse(c.keywords[0].value) == "transform_parameters":
+        elif len(c.keywords) == 1 and c.keywords[0].arg is None and ast.unparse(c.keywords[0].value) in dicts \
+                and ast.unparse(c.keywords[0].value) != kws["sample_params"]:
             withp = True
         else:
             raise U(MDM, "dispatch keyword shape")
@@ -123,66 +154,91 @@ def lift_dispatch(repo):
     return topts, tparams, disp
 
 
+SW = "{'sample_weight': sample_weight}"
+FRAME_KWS = {"y_true": "y_true", "y_pred": "y_pred", "sensitive_features": "sensitive_features"}
+
+
+def _frame_kws(call, name):
+    """keyword arguments of a MetricFrame(...) construction -> {name: source}; the three data arguments must be forwarded"""
+    if not (isinstance(call, ast.Call) and ast.unparse(call.func) == "MetricFrame") or call.args or any(k.arg is None for k in call.keywords):
+        raise U(FM, f"{name}: not a MetricFrame(<keywords>) construction")
+    kws = {k.arg: k.value for k in call.keywords}
+    if len(kws) != len(call.keywords) or set(kws) != set(FRAME_KWS) | {"metrics", "sample_params"} \
+            or any(ast.unparse(kws[k]) != v for k, v in FRAME_KWS.items()):
+        raise U(FM, f"{name}: MetricFrame called with { {k: ast.unparse(v) for k, v in kws.items()} }")
+    return kws
+
+
+def _agg_call(e, name):
+    """<receiver>.<meth>(method=method) -> (receiver, meth)"""
+    if not (isinstance(e, ast.Call) and isinstance(e.func, ast.Attribute) and len(e.keywords) == 1
+            and ast.unparse(e.keywords[0]) == "method=method" and not e.args):
+        raise U(FM, f"{name}: aggregate call shape")
+    return e.func.value, e.func.attr
+
+
 def lift_named(repo):
-    tree = ast.parse(open(os.path.join(repo, FM)).read())
+    from . import fairness_named
+    tree = normalize.parse(open(os.path.join(repo, FM)).read())
     fns = {n.name: n for n in tree.body if isinstance(n, ast.FunctionDef)}
+    if len(fns) != sum(1 for n in tree.body if isinstance(n, ast.FunctionDef)):
+        raise U(FM, "a function is defined twice")
     named, eodds = [], []
-    # _get_eo_frame
+    # _get_eo_frame (locals inlined): return MetricFrame(metrics={...}, ..., sample_params={<key>: {'sample_weight': sample_weight}, ...})
     eo = fns.get("_get_eo_frame")
     if eo is None:
         raise U(FM, "_get_eo_frame not found")
-    d = next((n.value for n in ast.walk(eo) if isinstance(n, ast.Assign) and isinstance(n.value, ast.Dict)
-              and all(isinstance(v, ast.Name) for v in n.value.values)), None)
-    if d is None:
+    if [a.arg for a in eo.args.args] != ["y_true", "y_pred", "sensitive_features", "sample_weight"]:
+        raise U(FM, "_get_eo_frame: parameters")
+    body = fairness_named.inline_locals(eo, FM).body
+    if not (len(body) == 1 and isinstance(body[0], ast.Return)):
+        raise U(FM, "_get_eo_frame: body shape")
+    kws = _frame_kws(body[0].value, "_get_eo_frame")
+    d, sp = kws["metrics"], kws["sample_params"]
+    if not (isinstance(d, ast.Dict) and all(isinstance(k, ast.Constant) and isinstance(k.value, str) for k in d.keys)
+            and all(isinstance(v, ast.Name) for v in d.values)):
         raise U(FM, "_get_eo_frame: metric dict not found")
     eo_frame = [(k.value, v.id) for k, v in zip(d.keys, d.values)]
-    src_eo = ast.unparse(eo)
-    if "sw_dict = {'sample_weight': sample_weight}" not in src_eo or not all(f"'{k}': sw_dict" in src_eo for k, _ in eo_frame):
+    if not (isinstance(sp, ast.Dict) and all(isinstance(k, ast.Constant) for k in sp.keys)
+            and sorted(k.value for k in sp.keys) == sorted(k for k, _ in eo_frame) and len(sp.keys) == len(eo_frame)
+            and all(ast.unparse(v) == SW for v in sp.values)):
         raise U(FM, "_get_eo_frame: sample_params shape")
     for name, fn in fns.items():
         if name.startswith("_"):
             continue
         args = [a.arg for a in fn.args.args] + [a.arg for a in fn.args.kwonlyargs]
-        body = [s for s in fn.body if not (isinstance(s, ast.Expr) and isinstance(s.value, ast.Constant))]
+        body = fairness_named.if_else_returns(fairness_named.inline_locals(fn, FM).body)
         if "agg" in args:
-            # if agg not in [...]: raise ; eo = _get_eo_frame(...) ; if agg == "worst_case": return max(eo.X(method=method)) else: return eo.X(method=method).mean()
-            tail = body[-1]
-            if not (isinstance(tail, ast.If) and ast.unparse(tail.test) == "agg == 'worst_case'"):
+            # [if agg not in [...]: raise] ; if agg == "worst_case": return max(EO.X(method=method)) else: return EO.X(method=method).mean()
+            # with EO = _get_eo_frame(y_true, y_pred, sensitive_features, sample_weight)
+            tail = body[-1] if body else None
+            for st in body[:-1]:
+                if not (isinstance(st, ast.If) and not st.orelse and len(st.body) == 1 and isinstance(st.body[0], ast.Raise)):
+                    raise U(FM, f"{name}: statement before the agg dispatch")
+            if not (isinstance(tail, ast.If) and ast.unparse(tail.test) in ("agg == 'worst_case'", "'worst_case' == agg")
+                    and len(tail.body) == 1 and len(tail.orelse) == 1 and isinstance(tail.body[0], ast.Return)
+                    and isinstance(tail.orelse[0], ast.Return)):
                 raise U(FM, f"{name}: agg dispatch shape")
             r1, r2 = tail.body[0], tail.orelse[0]
-            if not (isinstance(r1, ast.Return) and isinstance(r1.value, ast.Call) and isinstance(r1.value.func, ast.Name)
-                    and r1.value.func.id in ("max", "min") and len(r1.value.args) == 1):
+            if not (isinstance(r1.value, ast.Call) and isinstance(r1.value.func, ast.Name)
+                    and r1.value.func.id in ("max", "min") and len(r1.value.args) == 1 and not r1.value.keywords):
                 raise U(FM, f"{name}: worst_case is not max(...)/min(...)")
-            inner = r1.value.args[0]
-            if not (isinstance(inner, ast.Call) and isinstance(inner.func, ast.Attribute) and ast.unparse(inner.func.value) == "eo"
-                    and ast.unparse(inner.keywords[0]) == "method=method" and len(inner.keywords) == 1 and not inner.args):
-                raise U(FM, f"{name}: worst_case argument shape")
-            meth = inner.func.attr
-            if ast.unparse(r2.value) != f"eo.{meth}(method=method).mean()":
-                raise U(FM, f"{name}: mean branch is {ast.unparse(r2.value)}")
-            if "eo = _get_eo_frame(y_true, y_pred, sensitive_features, sample_weight)" not in ast.unparse(fn):
+            recv, meth = _agg_call(r1.value.args[0], name)
+            eo_src = "_get_eo_frame(y_true, y_pred, sensitive_features, sample_weight)"
+            if ast.unparse(recv) != eo_src:
                 raise U(FM, f"{name}: eo frame construction")
+            if ast.unparse(r2.value) != f"{eo_src}.{meth}(method=method).mean()":
+                raise U(FM, f"{name}: mean branch is {ast.unparse(r2.value)}")
             eodds.append((name, meth, r1.value.func.id))
         else:
-            # X = MetricFrame(metrics=<base>, ..., sample_params={"sample_weight": sample_weight}); result = X.<meth>(method=method); return result
-            if len(body) != 3:
+            # (locals inlined)  return MetricFrame(metrics=<base>, ..., sample_params={"sample_weight": sample_weight}).<meth>(method=method)
+            if not (len(body) == 1 and isinstance(body[0], ast.Return)):
                 raise U(FM, f"{name}: body shape")
-            a, b, c = body
-            if not (isinstance(a, ast.Assign) and isinstance(a.value, ast.Call) and ast.unparse(a.value.func) == "MetricFrame"):
-                raise U(FM, f"{name}: first statement is not a MetricFrame construction")
-            kws = {k.arg: ast.unparse(k.value) for k in a.value.keywords}
-            base = kws.pop("metrics", None)
-            if kws != {"y_true": "y_true", "y_pred": "y_pred", "sensitive_features": "sensitive_features",
-                       "sample_params": "{'sample_weight': sample_weight}"}:
-                raise U(FM, f"{name}: MetricFrame called with {kws}")
-            var = a.targets[0].id
-            if not (isinstance(b, ast.Assign) and isinstance(b.value, ast.Call) and isinstance(b.value.func, ast.Attribute)
-                    and ast.unparse(b.value.func.value) == var and len(b.value.keywords) == 1
-                    and ast.unparse(b.value.keywords[0]) == "method=method" and not b.value.args):
-                raise U(FM, f"{name}: aggregate call shape")
-            if not (isinstance(c, ast.Return) and ast.unparse(c.value) == b.targets[0].id):
-                raise U(FM, f"{name}: return shape")
-            named.append((name, base, b.value.func.attr))
+            recv, meth = _agg_call(body[0].value, name)
+            kws = _frame_kws(recv, name)
+            if ast.unparse(kws["sample_params"]) != SW:
+                raise U(FM, f"{name}: MetricFrame called with sample_params={ast.unparse(kws['sample_params'])}")
+            named.append((name, ast.unparse(kws["metrics"]), meth))
     return named, eo_frame, eodds
 
 
